@@ -213,7 +213,8 @@ def rule_loadall(ctx: Ctx) -> RuleResult:
         loop = m.toplevel[idx]
         # the only filter is the dunder test
         ifs = [n for n in ast.walk(loop) if isinstance(n, ast.If)]
-        ok = all(norm(i.test) in ("name.startswith('__')",) for i in ifs)
+        var = norm(loop.target.elts[0]) if isinstance(loop.target, ast.Tuple) and loop.target.elts else "name"
+        ok = all(norm(i.test) in (f"{var}.startswith('__')", f"not {var}.startswith('__')") for i in ifs)
         if ok:
             res.ok(f"{modname}", f"copies every non-dunder member of {target} (no fixed list of names)")
         else:
